@@ -22,7 +22,7 @@ var errTrial = errors.New("trial failed")
 
 func c07sScenario(p c07sParams, bound int) vh.SScenario {
 	name := fmt.Sprintf("breaker-%s-ft%d-st%d-mr%d-n%d-%s", p.Mode, p.FT, p.ST, p.MR, p.Callers, p.Outcomes)
-	return vh.SScenario{Name: name, Bound: bound, Params: p, Body: func(x *vh.Exec) {
+	return vh.SScenario{Name: name, KeyPrefix: "C07/conc", Bound: bound, Params: p, Body: func(x *vh.Exec) {
 		s := x.S
 		cb := NewCircuitBreaker(Settings{Name: "t", MaxRequests: uint32(p.MR), Interval: 2 * time.Second,
 			Timeout: 3 * time.Second, FailureThreshold: uint32(p.FT), SuccessThreshold: uint32(p.ST)})
@@ -134,7 +134,9 @@ func TestVerifC07S(t *testing.T) {
 		vh.ReplayS(c07sScenario(p, 0), rp.Choices)
 		return
 	}
-	for _, sc := range c07sScenarios() {
-		vh.RunS(r, "TestVerifC07S", sc)
+	for i, sc := range c07sScenarios() {
+		if vh.MyShard(i) {
+			vh.RunS(r, "TestVerifC07S", sc)
+		}
 	}
 }
